@@ -158,6 +158,70 @@ func execC16(c Case) string {
 			}
 		}
 		return "EXT " + ext + " RES " + joinOr(res, " ") + " RE " + re
+	case "blkbig": // blkbig <ctor> <ntx> <salt> <first>: a block too large to transcribe; digests of the accessors
+		ntx, salt := atoi(a[1]), uint32(atou(a[2]))
+		msg := synthBlock(ntx, salt, false)
+		var buf bytes.Buffer
+		must(msg.Serialize(&buf))
+		ser := append([]byte{}, buf.Bytes()...)
+		var m2 wire.MsgBlock
+		locs, err := m2.DeserializeTxLoc(bytes.NewBuffer(ser))
+		must(err)
+		locDigest := func(l []wire.TxLoc) string {
+			var sb strings.Builder
+			for _, x := range l {
+				sb.WriteString(itoa(x.TxStart) + "+" + itoa(x.TxLen) + ",")
+			}
+			return itoa(len(l)) + ":" + hx(chainhash.DoubleHashB([]byte(sb.String()))[:8])
+		}
+		byDigest := func(b []byte) string { return itoa(len(b)) + ":" + hx(chainhash.DoubleHashB(b)[:8]) }
+		last := msg.Transactions[ntx-1].TxHash()
+		ext := locDigest(locs) + " " + byDigest(ser) + " " + hx(last[:])
+		var b *bchutil.Block
+		switch a[0] {
+		case "msg":
+			b = bchutil.NewBlock(msg)
+		case "bytes":
+			b, err = bchutil.NewBlockFromBytes(ser)
+			must(err)
+		case "reader":
+			b, err = bchutil.NewBlockFromReader(bytes.NewReader(ser))
+			must(err)
+		default:
+			panic("harness: ctor")
+		}
+		var ld, bd string
+		obs := func(which byte) {
+			if which == 'L' {
+				l, err := b.TxLoc()
+				ld = "err"
+				if err == nil {
+					ld = locDigest(l)
+				}
+			} else {
+				by, err := b.Bytes()
+				bd = "err"
+				if err == nil {
+					bd = byDigest(by)
+				}
+			}
+		}
+		if a[3] == "L" {
+			obs('L')
+			obs('S')
+		} else {
+			obs('S')
+			obs('L')
+		}
+		lt := "err"
+		if t, err := b.Tx(ntx - 1); err == nil {
+			lt = hx(t.Hash()[:]) + ":" + itoa(t.Index())
+		}
+		oor := "no-error"
+		if _, err := b.Tx(ntx); err != nil {
+			oor = "oor"
+		}
+		return "EXT " + ext + " RES " + ld + " " + bd + " " + lt + " " + oor
 	case "txw": // txw <salt> <trailing>
 		mtx := synthTx(uint32(atou(a[0])), 1)
 		var buf bytes.Buffer
@@ -176,6 +240,18 @@ func execC16(c Case) string {
 
 func genC16(r *Rng, tier string, emit func(Case)) {
 	e := func(op, cls string, args ...string) { emit(Case{op, cls, args}) }
+	// transaction counts around the CompactSize boundaries (1 -> 3 -> 5 bytes), TxLoc before and after Bytes
+	big := []int{252, 253, 65535, 65536}
+	if tier == "thorough" {
+		big = []int{1, 252, 253, 254, 65535, 65536, 65537, 100000}
+	}
+	for _, ntx := range big {
+		for _, ctor := range []string{"msg", "reader", "bytes"} {
+			for _, first := range []string{"L", "S"} {
+				e("blkbig", "count:"+itoa(ntx), ctor, itoa(ntx), u64s(r.U64()&0xffff), first)
+			}
+		}
+	}
 	n := 200
 	if tier == "thorough" {
 		n = 5000
